@@ -90,6 +90,11 @@ func c16enumerate(o *vout, a uint32, l int, mode c16mode, deadline time.Duration
 		o.line(fmt.Sprintf("hosts-count %d %d", a, l), "parse-error")
 		return
 	}
+	if l >= 2 && l <= 30 && (a>>3+uint32(l))%2 == 1 {
+		// the generator's own contract covers networks whose IP still has host bits set (it masks the base itself):
+		// every other case hands it such an IPNet directly instead of ParseCIDR's already-masked one
+		inet = &net.IPNet{IP: net.IPv4(byte(a>>24), byte(a>>16), byte(a>>8), byte(a)).To4(), Mask: net.CIDRMask(l, 32)}
+	}
 	want := uint64(1)
 	if l <= 1 {
 		want = 0
